@@ -11,4 +11,5 @@ func ruleC08(prog *Program, rep *Report) {
 	// an instance taken from a pool was last used by another caller: whatever an entry does not reset is
 	// state shared between goroutines
 	ruleEntryParity(prog, rep)
+	ruleSharedExpr(prog, rep)
 }
